@@ -31,6 +31,19 @@ def reference_step(g: GF2):
     return crc
 
 
+def _is_data(it: Term, pname: str) -> bool:
+    """the data parameter, or an order-preserving copy / view of it: bytes(p), bytearray(p), list(p), tuple(p), memoryview(p), iter(p)"""
+    from bfsa.layout import builtin_call
+
+    it = unsnap(it)
+    if it.op == "param" and it.args[0] == pname:
+        return True
+    bc = builtin_call(it)
+    if bc and bc[0] in ("bytes", "bytearray", "list", "tuple", "memoryview", "iter") and len(bc[1]) == 1 and not bc[2]:
+        return _is_data(bc[1][0], pname)
+    return False
+
+
 def _split_register(prog, chk, fi, ex, ret: Term, exits, where):
     """The running value is carried through the loop in several variables s_1..s_k (its low byte and the rest, say) and put together by the returned
     expression R(s_1..s_k).  With A = R as a GF(2) map of the pieces:  (1) A(initial pieces) is the start value, (2) every piece keeps the width it has
@@ -43,7 +56,7 @@ def _split_register(prog, chk, fi, ex, ret: Term, exits, where):
     regs = sorted({x.args[1] for x in exits})
     params = fi.params
     it = lr.iter
-    chk.require(lr.kind == "for" and it is not None and it.op == "param" and it.args[0] == params[0],
+    chk.require(lr.kind == "for" and it is not None and _is_data(it, params[0]),
                 "C15.R3.iterates-data-in-order", FN, "for <byte> in %s" % (show(it, 4) if it is not None else "?"), where,
                 "one step per element of the data parameter, in order", "loop does not iterate directly over the data parameter")
     a = fi.node.args
@@ -179,7 +192,7 @@ def run(prog, chk, tier):
     # R3b: iteration over the data parameter, in order
     params = fi.params
     it = lr.iter
-    chk.require(lr.kind == "for" and it is not None and it.op == "param" and it.args[0] == params[0],
+    chk.require(lr.kind == "for" and it is not None and _is_data(it, params[0]),
                 "C15.R3.iterates-data-in-order", FN, "for <byte> in %s" % (show(it, 4) if it is not None else "?"), where,
                 "one step per element of the data parameter, in order", "loop does not iterate directly over the data parameter")
     # R3c: init = int(start_value) / start_value, default literal 0xFFFF
